@@ -845,6 +845,7 @@ class C18(Check):
         "spec-swept but not compared with the model",
     ]
     budget = {"quick": 1400, "thorough": 30000}
+    stats: dict = {}
     search_budget = {"quick": 2500, "thorough": 20000}
 
     # ---- generators ----
@@ -908,7 +909,11 @@ class C18(Check):
         if not isinstance(io, dict) or "lim" not in io:
             return f"impl: {io}"
         if not self.in_fragment(case):
+            self.stats["outside_fragment"] = self.stats.get("outside_fragment", 0) + 1
             return None
+        self.stats["compared"] = self.stats.get("compared", 0) + 1
+        if case.get("cyc"):
+            self.stats["cyclic_compared"] = self.stats.get("cyclic_compared", 0) + 1
         for which in ("lim", "unl"):
             if which not in io:
                 continue
@@ -990,6 +995,7 @@ class C18(Check):
 
     def finish_evidence(self, ev, tier):
         ev["coverage"]["exhaustive"] = False
+        ev["coverage"]["fragment"] = dict(self.stats)
         ev["coverage"]["matrix"] = ("position x depth x max_depth matrix enumerated completely: 22 positions x depth 1..%s x max_depth %s"
                                     % (("4", "{None,1,2,3}") if tier == "quick" else ("8", "{None,1..5}, good and invalid bottom leaf")))
 
